@@ -34,6 +34,37 @@ pub fn diff_model(mem: &mut Memvid, model: &Model, ro: bool, at: &str) -> (Vec<M
     diff_model_ext(mem, model, ro, at, false)
 }
 
+impl Mis {
+    /// The frame a mismatch is about (None = about the table as a whole).
+    pub fn frame_id(&self) -> Option<u64> {
+        let i = self.msg.find("] frame ")?;
+        let rest = &self.msg[i + 8..];
+        let digits: String = rest.chars().take_while(|c| c.is_ascii_digit()).collect();
+        digits.parse().ok()
+    }
+}
+
+/// Durability comparison (C03): every frame of the acknowledged table `a` must be present and
+/// equal to its version in `a` or in `b` (the table with the in-flight operation applied, which an
+/// un-acknowledged operation may legitimately have reached in part); extra frames are tolerated.
+pub fn diff_durable(mem: &mut Memvid, a: &Model, b: Option<&Model>, at: &str) -> Vec<Mis> {
+    let (ma, _) = diff_model_ext(mem, a, false, at, true);
+    if ma.is_empty() {
+        return ma;
+    }
+    let Some(b) = b else { return ma };
+    let (mb, _) = diff_model_ext(mem, b, false, at, true);
+    let n_a = a.frames.len() as u64;
+    let bad_in_b: Vec<u64> = mb.iter().filter_map(|m| m.frame_id()).collect();
+    ma.into_iter()
+        .filter(|m| match m.frame_id() {
+            // a whole-table complaint against `a` (too few frames) stands on its own
+            None => true,
+            Some(id) => id >= n_a || bad_in_b.contains(&id),
+        })
+        .collect()
+}
+
 /// `allow_extra`: frames beyond the model's table are tolerated (durability checks: an
 /// un-acknowledged operation may have left something behind; what was acknowledged must be there).
 pub fn diff_model_ext(mem: &mut Memvid, model: &Model, ro: bool, at: &str, allow_extra: bool) -> (Vec<Mis>, u64) {
